@@ -198,3 +198,51 @@ pub fn replay(case: &serde_json::Value) -> i32 {
         0
     }
 }
+
+/// `vh show <replay.json>`: emit + compile the stored case and print every rustc error with the
+/// offending line of the output (triage helper).
+pub fn show(file: &str) -> i32 {
+    let v: serde_json::Value = serde_json::from_str(&std::fs::read_to_string(file).expect("read")).expect("json");
+    let case = &v["case"];
+    let fs: crate::zeep::FileSet = if case["raw"].is_object() {
+        let raw: RawModel = serde_json::from_value(case["raw"].clone()).expect("raw");
+        let profile: Profile = serde_json::from_value(case["profile"].clone()).unwrap_or_else(|_| Profile::full());
+        pipeline::make_case(raw, &profile).files
+    } else if case["files"].is_object() {
+        serde_json::from_value(case["files"].clone()).expect("files")
+    } else {
+        serde_json::from_value(case["fileset"].clone()).expect("fileset")
+    };
+    for (n, c) in &fs.files {
+        println!("---- {n}\n{c}");
+    }
+    let ex = Externs::discover().expect("externs");
+    let scratch = scratch_dir("show");
+    match crate::worker::run_single(&fs) {
+        Outcome::Ok { output, .. } => {
+            let dir = pipeline::case_dir(&scratch, 0);
+            let c = pipeline::compile_output(&ex, &dir, &output, "");
+            let lines: Vec<&str> = output.lines().collect();
+            if std::env::var_os("VH_FULL").is_some() {
+                for (i, l) in lines.iter().enumerate() {
+                    println!("{:5} {l}", i + 1);
+                }
+            }
+            println!("==== rustc ok={} errors={}", c.ok, c.errors.len());
+            for d in c.errors.iter().take(12) {
+                let sp = d.primary();
+                println!("{:?} {} @ {:?}", d.code, d.message, sp.map(|s| (s.file_name.clone(), s.line_start)));
+                if let Some(s) = sp {
+                    if s.file_name.ends_with("out.rs") {
+                        for k in s.line_start.saturating_sub(3)..(s.line_start + 1).min(lines.len()) {
+                            println!("    {:5} {}", k + 1, lines[k]);
+                        }
+                    }
+                }
+            }
+        }
+        o => println!("generator outcome: {o:?}"),
+    }
+    let _ = std::fs::remove_dir_all(&scratch);
+    0
+}
